@@ -243,21 +243,30 @@ theorem toSptenmat_ok (S : Sparse α) (r c : List Nat) (hS : S.WF)
     (hp : isPermOf (r ++ c) S.shape.length = true) :
     S.toSptenmat (some r) (some c) none = .ok (sptenmatOf S r c) := by
   have hU := uniqueRowsSorted_perm _ (msOf_nodup S r c hS hp)
-  have h0 : (msOf S r c).any (fun u => u.getD 0 0 > numel (gather S.shape r)) = false := by
+  have hl2 : (msOf S r c).any (fun u => u.length != 2) = false := by
+    rw [List.any_eq_false]
+    intro u hu
+    obtain ⟨j, _, rfl⟩ := mem_msOf.1 hu
+    simp [matSub]
+  have hlen : ((msOf S r c).length != S.vals.length) = false := by
+    have : (msOf S r c).length = S.vals.length := by
+      simp only [msOf, List.length_map]; exact hS.len
+    rw [this]; simp
+  have h0 : (msOf S r c).any (fun u => u.getD 0 0 ≥ numel (gather S.shape r)) = false := by
     rw [List.any_eq_false]
     intro u hu
     obtain ⟨j, hj, rfl⟩ := mem_msOf.1 hu
     have := matSub_inBounds hp (hS.inb j hj)
     simp only [matSub, InBounds] at this
-    simp only [matSub, List.getD_cons_zero, gt_iff_lt, decide_eq_true_eq]
+    simp only [matSub, List.getD_cons_zero, ge_iff_le, decide_eq_true_eq]
     omega
-  have h1 : (msOf S r c).any (fun u => u.getD 1 0 > numel (gather S.shape c)) = false := by
+  have h1 : (msOf S r c).any (fun u => u.getD 1 0 ≥ numel (gather S.shape c)) = false := by
     rw [List.any_eq_false]
     intro u hu
     obtain ⟨j, hj, rfl⟩ := mem_msOf.1 hu
     have := matSub_inBounds hp (hS.inb j hj)
     simp only [matSub, InBounds] at this
-    simp only [matSub, List.getD_cons_succ, List.getD_cons_zero, gt_iff_lt, decide_eq_true_eq]
+    simp only [matSub, List.getD_cons_succ, List.getD_cons_zero, ge_iff_le, decide_eq_true_eq]
     omega
   have hagg0 : aggregateSum (msOf S r c) S.vals =
       (uniqueRowsSorted (msOf S r c)).map (fun u => (u, mval S r c u)) := rfl
@@ -275,7 +284,7 @@ theorem toSptenmat_ok (S : Sparse α) (r c : List Nat) (hS : S.WF)
     rfl
   rw [hmk]
   unfold Sptenmat.mkCopy
-  simp only [hp, Bool.not_true, Bool.false_eq_true, if_false, h0, h1, hagg, List.map_map, sptenmatOf]
+  simp only [hp, Bool.not_true, Bool.false_eq_true, if_false, hl2, hlen, h0, h1, hagg, List.map_map, sptenmatOf]
   congr 2
   exact List.map_id _
 
